@@ -146,18 +146,71 @@ def has_bool(colspecs):
     return any(cs[1] == 'boolean' for cs in colspecs)
 
 
+EOLS = ['\n', '\r\n']
 BASE_DIALECT = {'delimiter': ',', 'encoding': 'utf-8', 'header': 'present',
-                'boolformat': None}
+                'boolformat': None, 'eol': '\n'}
+
+#: column-description variants ("meta" dimension).  titles-<where>-<form>:
+#: CSVW "titles" on all / the first / the last column, written as a string,
+#: a list or a language map; the header row (when there is one) then holds
+#: the first title, not the name.  virtual-last: a virtual column description
+#: after the real ones.  noname-*: "name" left out, only "titles".
+TITLE_OF = {'k': 'K title', 'v': 'Vtitle', 'w': 'W-title',
+            'Né': 'Né title', 'x y': 'XY', 'A': 'A title'}
+META_TITLES = ['titles-all-str', 'titles-all-list', 'titles-all-lang',
+               'titles-first-str', 'titles-last-str', 'titles-all-langlist']
+META_OTHER = ['virtual-last']
+META_NONAME = ['noname-first', 'noname-all']
+#: titles whose URL-encoding is the identity (name defaults to first title)
+NONAME_TITLE = {'k': 'Ktitle', 'v': 'Vtitle', 'w': 'Wtitle'}
+
+
+def apply_meta(cols, meta):
+    """Column descriptions of the case with the meta variant applied."""
+    cols = [dict(c) for c in cols]
+    if meta == 'plain' or meta == 'virtual-last':
+        return cols
+    kind, where = meta.split('-')[0], meta.split('-')[1]
+    idx = {'all': range(len(cols)), 'first': [0],
+           'last': [len(cols) - 1]}[where]
+    for i in idx:
+        c = cols[i]
+        if kind == 'noname':
+            c['titles'] = NONAME_TITLE[c['name']]
+            c['noname'] = True
+            continue
+        t = TITLE_OF[c['name']]
+        form = meta.split('-')[2]
+        c['titles'] = {'str': t, 'list': [t, 'Other ' + t],
+                       'lang': {'en': t},
+                       'langlist': {'en': [t, 'Other ' + t]}}[form]
+    return cols
+
+
+#: CSVW datatype names that tdda documents (table CSVW_TYPE_TO_MTYPE, taken
+#: from the CSVW primer) as another spelling of a logical type:
+#: (alias, logical type, a valid value)
+ALIASES = (
+    [(a, 'integer', 5) for a in (
+        'long', 'int', 'short', 'byte', 'unsignedLong', 'unsignedInt',
+        'unsignedShort', 'unsignedByte', 'nonNegativeInteger',
+        'positiveInteger')] +
+    [(a, 'integer', -7) for a in ('nonPositiveInteger', 'negativeInteger')] +
+    [(a, 'number', 2.5) for a in ('double', 'decimal', 'float')] +
+    [(a, 'string', '007') for a in (
+        'normalizedString', 'anyURI', 'token', 'language', 'Name', 'NMTOKEN',
+        'xml', 'html', 'json')] +
+    [('dateTime', 'datetime', T1)])
 
 
 def case_b(colspecs, dialect=None, names=None, form='base', layout='single',
-           route='both', explicit=False):
+           route='both', explicit=False, meta='plain'):
     cols, rows = mk_table(colspecs, names)
     d = dict(BASE_DIALECT)
     d.update(dialect or {})
     return {'part': 'b', 'cols': cols, 'rows': rows, 'dialect': d,
             'form': form, 'layout': layout, 'route': route,
-            'explicit': explicit}
+            'explicit': explicit, 'meta': meta}
 
 
 def one_deviations():
@@ -170,16 +223,24 @@ def one_deviations():
         out.append({'header': x})
     for x in BOOLFMTS[1:]:
         out.append({'boolformat': x})
+    for x in EOLS[1:]:
+        out.append({'eol': x})
     return out
 
 
-def all_dialects(min_dev=0):
-    for de, en, he, bo in itertools.product(DELIMS, ENCODINGS, HEADERS,
-                                            BOOLFMTS):
-        d = {'delimiter': de, 'encoding': en, 'header': he, 'boolformat': bo}
+def all_dialects(min_dev=0, max_dev=99, eols=('\n',)):
+    for de, en, he, bo, eo in itertools.product(DELIMS, ENCODINGS, HEADERS,
+                                                BOOLFMTS, eols):
+        d = {'delimiter': de, 'encoding': en, 'header': he, 'boolformat': bo,
+             'eol': eo}
         ndev = sum(1 for k in d if d[k] != BASE_DIALECT[k])
-        if ndev >= min_dev:
+        if min_dev <= ndev <= max_dev:
             yield d
+
+
+#: quick time shapes for the junction layers (fraction width and junction
+#: separators are varied independently; thorough takes every shape)
+SEP_TIME_SHAPES_QUICK = ('HH:mm', 'HH:mm:ss', 'HH:mm:ss.SSS')
 
 
 # ---------------------------------------------------------------- the check
@@ -209,24 +270,40 @@ class C16(Check):
             'separator-free padded forms = 78; thorough: also space and '
             'mixed separators = 246, and the inline "format" spelling), each '
             'with no time part or {space,T} x {HH:mm, HH:mm:ss, .S, .SS, '
-            '.SSS}, x 10 (quick) / 90 (thorough) boundary instants, as '
-            'single-row files and as one multi-row file with a null per '
-            'pattern through csv2pandas, and through '
-            'csvw_date_format_to_md_date_format + strptime; (b) cases = '
-            'tables of 2 (thorough: also 3) columns over 8 (thorough 10) '
-            'column kinds boolean/integer/number/string/date x2 formats/'
-            'datetime x2 formats with 0-2 (thorough 0-3) rows and nulls x '
+            '.SSS} (the canonical patterns), x 10 (quick) / 90 (thorough) '
+            'boundary instants, through csvw_date_format_to_md_date_format '
+            '+ strptime for every instant and through csv2pandas as one '
+            'multi-row file with a null per pattern (date-only patterns and '
+            'thorough: also one file per instant); separators at every '
+            'junction (between date fields, date-time, hour-minute, '
+            'minute-second, second-fraction) by a deviation bound on the '
+            'pattern: every canonical pattern with ONE junction taking every '
+            'other separator of {- / . : space T} (quick: date parts whose '
+            'day and month widths agree, 42 of 78, x {none, HH:mm, HH:mm:ss, '
+            'HH:mm:ss.SSS} = 6.7k patterns; thorough: all 246 date parts x '
+            'all shapes, and TWO deviating junctions on the 78 x {none, '
+            'HH:mm:ss.SSS}); the variants of one canonical pattern are '
+            'loaded as columns of one file, and one file each if anything '
+            'disagrees; (b) cases = tables of 2 (thorough: also 3) columns '
+            'over 8 (thorough 10) column kinds boolean/integer/number/'
+            'string/date x2 formats/datetime x2 formats (+ every datatype '
+            'alias tdda documents) with 0-2 (thorough 0-3) rows and nulls x '
             'delimiter {, | tab ;} x encoding {utf-8, latin-1, utf-16} x '
             'header {present, "header": false, "headerRowCount": 0} x '
-            'boolean format {default, Y|N, 1|0} x metadata form {datatype '
-            'object, inline format} x layout {url+tableSchema, tables[]} x '
-            'lookup {csv+metadata path, metadata path only, findmd} x '
-            'dialect defaults {omitted, spelt out}, organised as base / one '
-            'deviation / all dialects layers; non-trivial = at least one '
-            'cell or instant for which the model says "must" was compared '
-            '(tables: at least one non-null specified cell); every failing '
-            'table is re-loaded with each configuration deviation put back '
-            'to its default to name the deviations the failure needs')
+            'boolean format {default, Y|N, 1|0} x line terminator {LF, CRLF} '
+            'x column descriptions {plain, "titles" as string / list / '
+            'language map on all or one column with the header row holding '
+            'the title, "name" absent, trailing virtual column} x metadata '
+            'form {datatype object, inline format} x layout {url+'
+            'tableSchema, tables[], linked schema file} x lookup {csv+'
+            'metadata path, metadata path only, findmd} x dialect defaults '
+            '{omitted, all spelt out incl. "null": ""}, organised as base / '
+            'one deviation / two deviations (thorough: more) layers; '
+            'non-trivial = at least one cell or instant for which the model '
+            'says "must" was compared (tables: at least one non-null '
+            'specified cell); every failing table is re-loaded with each '
+            'configuration deviation put back to its default to name the '
+            'deviations the failure needs')
     assumptions = [
         'pinned pandas 3.0.6 / python 3.12 strptime are the trusted readers '
         'behind the translated formats; the token ISO8601 is read with '
@@ -239,7 +316,16 @@ class C16(Check):
         'with leading/trailing blanks (trim), strings starting with # '
         '(commentPrefix), empty strings (equal to the null marker), '
         'single-column tables (a null row is a blank line), "header": false '
-        'together with a contradicting "headerRowCount"',
+        'together with a contradicting "headerRowCount"; dialect properties '
+        'outside the statement (skipRows, quoteChar, commentPrefix, trim, '
+        '... ) are only ever written with their CSVW default values',
+        'a column description without "name" (only "titles"): CSVW derives '
+        'the name from the first title; tdda reports the description as a '
+        'metadata error (md.errors) instead: a reported refusal is counted '
+        'as unspecified, a silent load is compared with the CSVW reading',
+        'with "titles" the header row holds the first title and the loaded '
+        'column names must be the declared "name"s (tdda documents this by '
+        'its test027/test011 expectations)',
         'dtype families accepted as "the declared type": boolean|bool, '
         'Int64|int64, float64|Float64, string|str, datetime64[any unit] '
         'without time zone',
@@ -254,19 +340,30 @@ class C16(Check):
     def layers(self, tier):
         L = [('a-dates', 'date-only patterns x instants'),
              ('a-datetimes', 'date part x 10 time parts x instants'),
+             ('a-sep1', 'every canonical pattern with ONE junction taking '
+                        'every other separator of - / . : space T'),
              ('b-base', 'all 2-column tables, default dialect'),
              ('b-dev1', 'one dialect deviation x tables'),
-             ('b-routes', 'metadata form x layout x lookup route x '
-                          'explicit defaults'),
-             ('b-dialects', 'every dialect with >= 2 deviations x lite '
-                            'tables')]
+             ('b-meta1', 'one metadata deviation (titles forms/placement, '
+                         'name absent, virtual column, inline format, '
+                         'layout, lookup route, explicit defaults) x every '
+                         'header mode x tables'),
+             ('b-aliases', 'every documented datatype alias'),
+             ('b-dialects', 'every dialect with exactly 2 deviations '
+                            '(thorough: >= 2) x lite tables')]
         if tier == 'thorough':
             L += [('a-inline', 'patterns given as inline "format"'),
+                  ('a-sep2', 'canonical patterns with TWO junctions '
+                             'deviating'),
+                  ('b-meta2', 'every pair of metadata deviations (form, '
+                              'layout, route, explicit defaults, titles '
+                              'variants) x header modes'),
                   ('b-rows3', '3-row tables, default dialect and one '
                               'deviation'),
-                  ('b-cols3', '3-column tables x every dialect'),
+                  ('b-cols3', '3-column tables x every dialect with <= 2 '
+                              'deviations'),
                   ('b-names', 'non-ASCII / spaced column names x every '
-                              'dialect'),
+                              'dialect x titles'),
                   ('b-dialects-full', 'every dialect x full 1-row tables')]
         return L
 
@@ -277,19 +374,43 @@ class C16(Check):
             if layer == 'a-dates':
                 for dp in dps:
                     yield {'part': 'a', 'date': dp, 'times': [None],
-                           'form': 'base'}
+                           'form': 'base', 'single': True}
             elif layer == 'a-datetimes':
+                # quick: one multi-row file per pattern + every instant
+                # through the translation; thorough: also one file per
+                # instant
                 for dp in dps:
                     for j in S.TIME_JOINS:
                         yield {'part': 'a', 'date': dp,
                                'times': [j + s for s in S.TIME_SHAPES],
-                               'form': 'base'}
+                               'form': 'base',
+                               'single': tier == 'thorough'}
             elif layer == 'a-inline':
                 # how the format is spelt does not change its translation:
                 # the 78 patterns of the quick grammar are enough here
                 for dp in S.date_patterns('quick'):
                     yield {'part': 'a', 'date': dp, 'times': tps,
-                           'form': 'inline'}
+                           'form': 'inline', 'single': False}
+            elif layer in ('a-sep1', 'a-sep2'):
+                k = 1 if layer == 'a-sep1' else 2
+                shapes = S.TIME_SHAPES if (tier == 'thorough' and k == 1) \
+                    else SEP_TIME_SHAPES_QUICK if k == 1 \
+                    else ('HH:mm:ss.SSS',)
+                base = dps if k == 1 else S.date_patterns('quick')
+                if tier != 'thorough':
+                    # quick: day and month widths go together (d with M,
+                    # dd with MM) x both year widths: 42 of the 78 date
+                    # parts; thorough takes all of them
+                    base = [dp for dp in base
+                            if len(dp['d']) == len(dp['M'])]
+                for dp in base:
+                    yield {'part': 'a', 'date': dp, 'times': [None],
+                           'form': 'base', 'single': False, 'junctions': k}
+                    for j in S.TIME_JOINS:
+                        for sh in shapes:
+                            yield {'part': 'a', 'date': dp,
+                                   'times': [j + sh], 'form': 'base',
+                                   'single': False, 'junctions': k}
             return
         for c in self.cases_b(tier, layer):
             yield c
@@ -298,9 +419,14 @@ class C16(Check):
         if layer == 'b-base':
             for n in (0, 1, 2):
                 sp = specs(tier, n, True)
-                for a in sp:
-                    for b in sp:
-                        yield case_b([a, b])
+                lite = specs(tier, n, False)
+                if n < 2 or tier == 'thorough':
+                    pairs = [(a, b) for a in sp for b in sp]
+                else:
+                    pairs = [(a, b) for a in sp for b in lite] + \
+                            [(b, a) for a in sp for b in lite]
+                for (a, b) in pairs:
+                    yield case_b([a, b])
         elif layer == 'b-dev1':
             for dev in one_deviations():
                 for n in (0, 1, 2):
@@ -308,34 +434,82 @@ class C16(Check):
                     lite = specs(tier, n, False)
                     if n < 2:
                         pairs = [(a, b) for a in full for b in full]
-                    else:
+                    elif tier == 'thorough':
                         pairs = [(a, b) for a in full for b in lite] + \
                                 [(b, a) for a in full for b in lite]
+                    else:
+                        pairs = [(a, b) for a in lite for b in lite]
                     for (a, b) in pairs:
                         if 'boolformat' in dev and not has_bool([a, b]):
                             continue
                         yield case_b([a, b], dev)
-        elif layer == 'b-routes':
-            heads = HEADERS if tier == 'thorough' else HEADERS[:2]
+        elif layer == 'b-meta1':
+            metas = META_TITLES + META_OTHER if tier == 'thorough' \
+                else META_TITLES[:4] + META_OTHER
+            devs = [dict(meta=m) for m in metas] + \
+                   [dict(form='inline'), dict(layout='tables'),
+                    dict(layout='linked'), dict(route='mdonly'),
+                    dict(route='findmd'), dict(explicit=True)]
             for n in (0, 1):
                 lite = specs(tier, n, False)
                 for a in lite:
                     for b in lite:
                         bfs = BOOLFMTS[:2] if has_bool([a, b]) else [None]
-                        for form, layout, route, ex, he, bf in \
+                        for dev in devs:
+                            # titles and explicit defaults touch the header
+                            # handling: all three header modes; the others:
+                            # present and headerRowCount 0 (thorough: all)
+                            heads = HEADERS if ('meta' in dev or
+                                                'explicit' in dev or
+                                                tier == 'thorough') \
+                                else [HEADERS[0], HEADERS[2]]
+                            for he in heads:
+                                for bf in bfs:
+                                    if bf and dev.get('form') != 'inline':
+                                        continue
+                                    yield case_b([a, b],
+                                                 {'header': he,
+                                                  'boolformat': bf}, **dev)
+                        for m in META_NONAME:
+                            yield case_b([a, b], meta=m)
+        elif layer == 'b-meta2':
+            metas = ['plain'] + META_TITLES + META_OTHER
+            for n in (0, 1):
+                lite = specs('quick', n, False)
+                for a in lite:
+                    for b in lite:
+                        bfs = BOOLFMTS[:2] if has_bool([a, b]) else [None]
+                        for form, layout, route, ex, he, bf, m in \
                                 itertools.product(
-                                    ('base', 'inline'), ('single', 'tables'),
+                                    ('base', 'inline'),
+                                    ('single', 'tables', 'linked'),
                                     ('both', 'mdonly', 'findmd'),
-                                    (False, True), heads, bfs):
-                            if (form, layout, route, ex) == \
-                                    ('base', 'single', 'both', False):
+                                    (False, True), HEADERS, bfs, metas):
+                            ndev = ((form != 'base') + (layout != 'single') +
+                                    (route != 'both') + ex + (m != 'plain'))
+                            if ndev != 2:
                                 continue
                             yield case_b([a, b], {'header': he,
                                                   'boolformat': bf},
                                          form=form, layout=layout,
-                                         route=route, explicit=ex)
+                                         route=route, explicit=ex, meta=m)
+        elif layer == 'b-aliases':
+            partners = [('string', 'string', None, 'a'),
+                        ('date-dmy', 'date', 'd/M/yyyy', D3)]
+            for (alias, typ, val) in ALIASES:
+                for vec in ([val], [None], [val, None], [None, val]):
+                    for (pk, pt, pf, pv) in partners:
+                        a = ('alias-' + typ, typ, None, vec)
+                        b = (pk, pt, pf, [pv] * len(vec))
+                        for pair, pos in (([a, b], 0), ([b, a], 1)):
+                            c = case_b(pair)
+                            c['cols'][pos]['decl'] = alias
+                            yield c
         elif layer == 'b-dialects':
-            for d in all_dialects(min_dev=2):
+            mx = 99 if tier == 'thorough' else 2
+            for d in all_dialects(min_dev=2, max_dev=mx,
+                                  eols=EOLS if tier == 'thorough'
+                                  else EOLS[:1]):
                 for n in ((0, 1, 2) if tier == 'thorough' else (0, 1)):
                     lite = specs(tier, n, False)
                     for a in lite:
@@ -354,7 +528,7 @@ class C16(Check):
                                 continue
                             yield case_b(pair, dev)
         elif layer == 'b-cols3':
-            for d in all_dialects():
+            for d in all_dialects(max_dev=2):
                 for n in (0, 1):
                     lite = [s for s in specs('quick', n, False)]
                     for a in lite:
@@ -379,7 +553,9 @@ class C16(Check):
                         for b in lite:
                             if d['boolformat'] and not has_bool([a, b]):
                                 continue
-                            yield case_b([a, b], d, names=NAMESETS[1])
+                            for m in ('plain', 'titles-all-str'):
+                                yield case_b([a, b], d, names=NAMESETS[1],
+                                             meta=m)
         elif layer == 'b-dialects-full':
             for d in all_dialects(min_dev=2):
                 full = specs(tier, 1, True)
@@ -394,10 +570,11 @@ class C16(Check):
     # -------------------------------------------------------------- worker
     def setup_worker(self, tier):
         import pandas as pd
-        from tdda.serial.reader import csv2pandas
+        from tdda.serial.reader import csv2pandas, load_metadata
         from tdda.serial.csvw import csvw_date_format_to_md_date_format
         self.pd = pd
         self.csv2pandas = csv2pandas
+        self.load_metadata = load_metadata
         self.translate = csvw_date_format_to_md_date_format
         self.tier = tier
         self.sandbox = tempfile.mkdtemp(prefix='tdda_mc_c16_', dir='/var/tmp')
@@ -412,23 +589,35 @@ class C16(Check):
     # ----------------------------------------------------------- real load
     def load(self, columns, rows, delimiter=',', encoding='utf-8',
              header='present', form='base', layout='single', route='both',
-             explicit=False):
+             explicit=False, eol='\n', virtual_last=False,
+             want_md_errors=False):
         """Write csv + metadata into the sandbox, run the real csv2pandas.
-        -> ('ok', frame) | ('raise', exception)"""
+        -> ('ok', frame) | ('raise', exception) | ('flagged', [errors])
+        (the last only with want_md_errors: tdda's own metadata validation
+        reports errors for this metadata file)."""
         for fn in os.listdir(self.sandbox):
             os.unlink(os.path.join(self.sandbox, fn))
         csvpath = os.path.join(self.sandbox, 't.csv')
         mdpath = os.path.join(self.sandbox, 't-metadata.json')
         with open(csvpath, 'wb') as f:
             f.write(S.csv_bytes(columns, rows, delimiter,
-                                header == 'present', encoding))
+                                header == 'present', encoding, eol))
         with open(mdpath, 'w') as f:
-            f.write(S.metadata_json('t.csv', columns, delimiter, encoding,
-                                    header, form, layout, explicit))
+            f.write(json.dumps(S.metadata(
+                't.csv', columns, delimiter, encoding, header, form, layout,
+                explicit, virtual_last), indent=1, ensure_ascii=True))
+        if layout == 'linked':
+            with open(os.path.join(self.sandbox, S.SCHEMA_FILE), 'w') as f:
+                f.write(S.schema_doc(columns, form, virtual_last))
         out, err = io.StringIO(), io.StringIO()
         try:
             with contextlib.redirect_stdout(out), \
                     contextlib.redirect_stderr(err):
+                if want_md_errors:
+                    md = self.load_metadata(mdpath, verbosity=0)
+                    errs = list(getattr(md, 'errors', []) or [])
+                    if errs:
+                        return 'flagged', errs
                 if route == 'both':
                     df = self.csv2pandas(csvpath, mdpath)
                 elif route == 'mdonly':
@@ -492,78 +681,149 @@ class C16(Check):
                 state['date_only_ok'] = ok
             return state['date_only_ok']
 
+        single = case.get('single', True)
+        k = case.get('junctions', 0)
         for tp in case['times']:
-            pattern = dp['pattern'] + (tp or '')
             base = 'date' if tp is None else 'datetime'
-            musts = []
-            for t in self.instants:
-                st = S.pattern_status(t, pattern)
-                if st != 'must':
-                    R.unspec += 1
-                    R.out('a:unspecified:%s' % st)
-                    continue
-                musts.append(t)
-                R.nontrivial = True
-                for route in ('csv2pandas', 'strptime'):
-                    bad = self.one_instant(pattern, base, form, t, route)
-                    R.ev()
-                    if bad is None:
-                        R.out('a:%s:ok:%s' % (route, self.last_note))
-                        continue
-                    kind, detail = bad
-                    R.out('a:%s:%s' % (route, kind))
-                    R.viol(self.sig_a(route, kind, dp, tp,
-                                      tp is None or not date_only_ok(),
-                                      form),
-                           'instant-read-back-exactly', detail,
-                           {'pattern': pattern, 'instant': t.isoformat(),
-                            'route': route})
-            # all instants in one file, plus a null
-            if musts:
-                cols = [{'name': 'id', 'type': 'integer'},
-                        {'name': 't', 'type': base, 'format': pattern}]
-                rows = [[i, t] for i, t in enumerate(musts)]
-                rows.append([len(musts), None])
-                st, got = self.load(cols, rows, form=form)
-                R.ev()
-                bad = None
-                if st == 'raise':
-                    bad = ('raises:' + msg_class(got),
-                           {'exception': repr(got)[:300]})
+            if k:
+                variants = S.junction_deviations(dp, tp, k)
+            else:
+                variants = [(dp['pattern'] + (tp or ''), None)]
+            if k and self.batch_ok(R, variants, base, form):
+                continue
+            for (pattern, devs) in variants:
+                if devs is None:
+                    def sig(route, kind, tp=tp):
+                        return self.sig_a(route, kind, dp, tp,
+                                          tp is None or not date_only_ok(),
+                                          form)
                 else:
-                    exp = [S.expected_cell(cols[1], t) for t in musts] + \
-                          [('null',)]
-                    obs = [self.observed_cell(v) for v in got['t'].tolist()] \
-                        if 't' in got.columns else None
-                    if obs is None or len(obs) != len(exp):
-                        bad = ('shape', {'columns': [str(c) for c in
-                                                     got.columns],
-                                         'rows': len(got)})
-                    else:
-                        for e, o, t in zip(exp, obs, musts + [None]):
-                            if e != o:
-                                bad = ('multirow-' + self.kind_of_diff(e, o),
-                                       {'expected': e, 'observed': o,
-                                        'row_instant': str(t)})
-                                break
-                        if bad is None and not S.dtype_ok(
-                                base, str(got['t'].dtype)):
-                            bad = ('dtype:%s' % got['t'].dtype, {})
-                if bad is None:
-                    R.out('a:multirow:ok')
-                else:
-                    kind, detail = bad
-                    detail = dict(detail)
-                    detail['pattern'] = pattern
-                    detail['texts'] = [S.format_instant(t, pattern)
-                                       for t in musts][:12]
-                    R.out('a:multirow:%s' % kind)
-                    R.viol(self.sig_a('csv2pandas-multirow', kind, dp, tp,
-                                      tp is None or not date_only_ok(),
-                                      form),
-                           'instant-read-back-exactly', detail,
-                           {'pattern': pattern, 'route': 'multirow'})
+                    def sig(route, kind, tp=tp, devs=devs):
+                        # the canonical pattern is checked by the other
+                        # layers: name the deviating junction(s), the time
+                        # shape and whether the date part has the ISO shape
+                        return 'a:%s:%s:junction[%s]:%s:%s' % (
+                            route, kind,
+                            ','.join('%s=%s' % (j, S.SEP_NAME[x])
+                                     for (j, x) in devs),
+                            'isodate' if S.is_iso_date(dp) else 'otherdate',
+                            'date-only' if tp is None else tp[1:])
+                self.check_pattern(R, pattern, base, form, single, sig)
         return R
+
+    def batch_ok(self, R, variants, base, form):
+        """All variants of one canonical pattern at once: every instant
+        through translation + strptime, and ONE csv file with one date
+        column per variant (rows = the instants and a null).  True when
+        everything agrees with the model; on any disagreement nothing is
+        reported here and the caller checks the variants one by one (one
+        file each) so that the signature names the junction."""
+        musts = [t for t in self.instants
+                 if S.pattern_status(t, variants[0][0]) == 'must']
+        if not musts or any(
+                S.pattern_status(t, p) != 'must'
+                for (p, _) in variants for t in musts):
+            return False
+        notes = []
+        for (pattern, _) in variants:
+            for t in musts:
+                if self.one_instant(pattern, base, form, t,
+                                    'strptime') is not None:
+                    return False
+                notes.append(self.last_note)
+        cols = [{'name': 'id', 'type': 'integer'}] + [
+            {'name': 't%d' % i, 'type': base, 'format': p}
+            for i, (p, _) in enumerate(variants)]
+        rows = [[i] + [t] * len(variants) for i, t in enumerate(musts)]
+        rows.append([len(musts)] + [None] * len(variants))
+        st, got = self.load(cols, rows, form=form)
+        if st != 'ok' or [str(c) for c in got.columns] != \
+                [c['name'] for c in cols] or len(got) != len(rows):
+            return False
+        for c in cols[1:]:
+            exp = [S.expected_cell(c, t) for t in musts] + [('null',)]
+            obs = [self.observed_cell(v) for v in got[c['name']].tolist()]
+            if exp != obs or not S.dtype_ok(base, str(got[c['name']].dtype)):
+                return False
+        n = len(variants) * len(musts)
+        R.ev(n + 1, checked=n + len(variants))
+        R.nontrivial = True
+        for x in notes:
+            R.out('a:strptime:ok:%s' % x)
+        R.out('a:batch:ok:%d-patterns' % len(variants))
+        if len(musts) < len(self.instants):
+            R.unspec += (len(self.instants) - len(musts)) * len(variants)
+            R.out('a:unspecified:yy-window')
+        return True
+
+    def check_pattern(self, R, pattern, base, form, single, sig):
+        """One pattern x every instant: through the translation + strptime
+        (always), as one csv file per instant (if `single`), and as one
+        multi-row file with a null."""
+        musts = []
+        for t in self.instants:
+            st = S.pattern_status(t, pattern)
+            if st != 'must':
+                R.unspec += 1
+                R.out('a:unspecified:%s' % st)
+                continue
+            musts.append(t)
+            R.nontrivial = True
+            for route in (('csv2pandas', 'strptime') if single
+                          else ('strptime',)):
+                bad = self.one_instant(pattern, base, form, t, route)
+                R.ev()
+                if bad is None:
+                    R.out('a:%s:ok:%s' % (route, self.last_note))
+                    continue
+                kind, detail = bad
+                R.out('a:%s:%s' % (route, kind))
+                R.viol(sig(route, kind), 'instant-read-back-exactly', detail,
+                       {'pattern': pattern, 'instant': t.isoformat(),
+                        'route': route})
+        # all instants in one file, plus a null
+        if not musts:
+            return
+        cols = [{'name': 'id', 'type': 'integer'},
+                {'name': 't', 'type': base, 'format': pattern}]
+        rows = [[i, t] for i, t in enumerate(musts)]
+        rows.append([len(musts), None])
+        st, got = self.load(cols, rows, form=form)
+        R.ev()
+        bad = None
+        if st == 'raise':
+            bad = ('raises:' + msg_class(got),
+                   {'exception': repr(got)[:300]})
+        else:
+            exp = [S.expected_cell(cols[1], t) for t in musts] + \
+                  [('null',)]
+            obs = [self.observed_cell(v) for v in got['t'].tolist()] \
+                if 't' in got.columns else None
+            if obs is None or len(obs) != len(exp):
+                bad = ('shape', {'columns': [str(c) for c in got.columns],
+                                 'rows': len(got)})
+            else:
+                for e, o, t in zip(exp, obs, musts + [None]):
+                    if e != o:
+                        bad = ('multirow-' + self.kind_of_diff(e, o),
+                               {'expected': e, 'observed': o,
+                                'row_instant': str(t)})
+                        break
+                if bad is None and not S.dtype_ok(base,
+                                                  str(got['t'].dtype)):
+                    bad = ('dtype:%s' % got['t'].dtype, {})
+        if bad is None:
+            R.out('a:multirow:ok:%s' % got['t'].dtype)
+        else:
+            kind, detail = bad
+            detail = dict(detail)
+            detail['pattern'] = pattern
+            detail['texts'] = [S.format_instant(t, pattern)
+                               for t in musts][:12]
+            R.out('a:multirow:%s' % kind)
+            R.viol(sig('csv2pandas-multirow', kind),
+                   'instant-read-back-exactly', detail,
+                   {'pattern': pattern, 'route': 'multirow'})
 
     @staticmethod
     def kind_of_diff(e, o):
@@ -653,6 +913,10 @@ class C16(Check):
             if c['type'] == 'boolean' and d['boolformat']:
                 c['boolformat'] = d['boolformat']
             cols.append(c)
+        meta = case.get('meta', 'plain')
+        cols = apply_meta(cols, meta)
+        eol = d.get('eol', '\n')
+        noname = meta.startswith('noname')
         rows = []
         for r in case['rows']:
             row = []
@@ -668,7 +932,8 @@ class C16(Check):
             rows.append(row)
         st, got = self.load(cols, rows, delim, d['encoding'], d['header'],
                             case['form'], case['layout'], case['route'],
-                            case['explicit'])
+                            case['explicit'], eol, meta == 'virtual-last',
+                            want_md_errors=noname)
         n = len(rows)
         exp = [[S.expected_cell(c, v) for c, v in zip(cols, row)]
                for row in rows]
@@ -680,8 +945,19 @@ class C16(Check):
         detail = {'columns': cols, 'rows': case['rows'], 'dialect': d,
                   'form': case['form'], 'layout': case['layout'],
                   'route': case['route'], 'explicit': case['explicit'],
+                  'meta': meta,
+                  'column_descriptions': S.column_descriptions(
+                      cols, case['form'], meta == 'virtual-last'),
                   'csv': S.csv_text(cols, rows, delim,
-                                    d['header'] == 'present')}
+                                    d['header'] == 'present', eol)}
+        if st == 'flagged':
+            # "name" is absent: CSVW says the name is then the first title;
+            # tdda's metadata validation reports the description as an
+            # error instead of guessing: a reported refusal, unspecified
+            info['unspec'] += 1
+            info['nontrivial'] = False
+            info['outs'].append('b:unspecified:name-absent-flagged')
+            return [], info
 
         def fail(key, clause, extra, col=None, sub=None, out=None):
             dd = dict(detail)
@@ -694,7 +970,7 @@ class C16(Check):
             fail('raises:' + msg_class(got) + empty, 'loads-without-error',
                  {'exception': repr(got)[:300]})
             return fails, info
-        names = [c['name'] for c in cols]
+        names = [S.declared_name(c) for c in cols]
         obs_names = [c if isinstance(c, str) else repr(c)
                      for c in got.columns]
         if obs_names != names:
@@ -706,7 +982,7 @@ class C16(Check):
             return fails, info
         temporal = ('date', 'datetime')
         for j, c in enumerate(cols):
-            dn = str(got[c['name']].dtype)
+            dn = str(got[S.declared_name(c)].dtype)
             if not S.dtype_ok(c['type'], dn):
                 shape = 'rows0' if n == 0 else \
                     'allnull' if all(r[j] is None for r in rows) else 'vals'
@@ -727,7 +1003,7 @@ class C16(Check):
                      col=j, sub={'column': j},
                      out='b:dtype:%s->%s' % (c['kind'], dn))
                 continue
-            obs = [self.observed_cell(v) for v in got[c['name']].tolist()]
+            obs = [self.observed_cell(v) for v in got[S.declared_name(c)].tolist()]
             for i in range(n):
                 e, o = exp[i][j], obs[i]
                 if e == S.UNSPEC:
@@ -752,7 +1028,7 @@ class C16(Check):
             info['outs'].append('b:ok:%s:%s:%s:%s:n%d:%s' % (
                 d['header'], DELIM_NAME[delim], d['encoding'],
                 d['boolformat'], n,
-                ','.join(str(got[c['name']].dtype) for c in cols)))
+                ','.join(str(got[S.declared_name(c)].dtype) for c in cols)))
         return fails, info
 
     #: configuration dimensions, their default and how a deviation is named
@@ -761,6 +1037,9 @@ class C16(Check):
         ('delimiter', ',', lambda v: 'delim=' + DELIM_NAME[v]),
         ('encoding', 'utf-8', lambda v: 'enc=' + v),
         ('boolformat', None, lambda v: 'bool=' + v),
+        ('eol', '\n', lambda v: 'eol=crlf'),
+        ('meta', 'plain', lambda v: 'meta=' + ('titles' if v.startswith(
+            'titles') else 'noname' if v.startswith('noname') else v)),
         ('form', 'base', lambda v: 'form=' + v),
         ('layout', 'single', lambda v: 'layout=' + v),
         ('route', 'both', lambda v: 'route=' + v),
@@ -769,12 +1048,14 @@ class C16(Check):
 
     @staticmethod
     def get_dim(case, dim):
-        return case['dialect'][dim] if dim in case['dialect'] else case[dim]
+        if dim in BASE_DIALECT:
+            return case['dialect'].get(dim, BASE_DIALECT[dim])
+        return case.get(dim, 'plain' if dim == 'meta' else None)
 
     @staticmethod
     def with_dim(case, dim, value):
         c = dict(case)
-        if dim in case['dialect']:
+        if dim in BASE_DIALECT:
             c['dialect'] = dict(case['dialect'])
             c['dialect'][dim] = value
         else:
@@ -791,34 +1072,23 @@ class C16(Check):
             R.out(o)
         if not fails:
             return R
-        hmode = case['dialect']['header']
         devs = [(dim, self.get_dim(case, dim), name)
                 for (dim, default, name) in self.DIMS
                 if self.get_dim(case, dim) != default]
-        structural = fails[0]['key'].startswith(('raises:', 'names',
-                                                 'nrows'))
-        if hmode != 'present' and structural:
-            # header-less dialect and the table did not even come back with
-            # the declared columns: the header spelling is named, every
-            # other deviation is a consequence
-            ctxs = dict((id(f), hmode) for f in fails)
-        else:
-            # name only the deviations that are necessary for the failure:
-            # put each one back to its default (one at a time, one more real
-            # load each) and see whether the same failure is still there
-            needed = dict((id(f), []) for f in fails)
-            for (dim, val, name) in devs:
-                default = [x[1] for x in self.DIMS if x[0] == dim][0]
-                f2, _ = self.eval_b(self.with_dim(case, dim, default))
-                R.ev()
-                still = set((f['key'], f['col']) for f in f2)
-                for f in fails:
-                    if (f['key'], f['col']) not in still:
-                        needed[id(f)].append(name(val))
-            # 'base': no deviation from the default configuration is
-            # needed for this failure
-            ctxs = dict((k, ','.join(v) or 'base')
-                        for k, v in needed.items())
+        # name only the deviations that are necessary for the failure: put
+        # each one back to its default (one at a time, one more real load
+        # each) and see whether the same failure is still there
+        needed = dict((id(f), []) for f in fails)
+        for (dim, val, name) in devs:
+            default = [x[1] for x in self.DIMS if x[0] == dim][0]
+            f2, _ = self.eval_b(self.with_dim(case, dim, default))
+            R.ev()
+            still = set((f['key'], f['col']) for f in f2)
+            for f in fails:
+                if (f['key'], f['col']) not in still:
+                    needed[id(f)].append(name(val))
+        # 'base': no deviation from the default configuration is needed
+        ctxs = dict((k, ','.join(v) or 'base') for k, v in needed.items())
         for f in fails:
             R.viol('b:%s:%s' % (f['key'], ctxs[id(f)]), f['clause'],
                    f['detail'], f['sub'])
